@@ -629,7 +629,7 @@ fn part_large(ctx: &Arc<Ctx>, work: &std::path::Path) {
 
 pub fn run(ctx: Arc<Ctx>) {
 	ctx.rule(
-		"library: 2 sources (full pyramid z0..3; sparse asymmetric set) whose payloads spell their coordinate x 4 flag combinations x zoom limits {none,(0,0),(1,2),(2,1),(3,9)} x geographic boxes from the C15 lon/lat alphabet (every 9th in quick, all in thorough; incl. points, antimeridian/pole touching) x border {none,0,1,3}; \
+		"library: 2 sources (full pyramid z0..3; sparse asymmetric set) whose payloads spell their coordinate x 4 flag combinations x zoom limits {none,(0,0),(1,2),(2,1),(3,9)} x geographic boxes from the C15 lon/lat alphabet (every 9th in quick, all in thorough; incl. points, antimeridian/pole touching) x border {none,0,1,3,2^31+1,2^32-1}; \
 		 TilesConvertReader lookups over every coordinate z<=4, streams over every advertised level, and (for a stride) a full conversion into a versatiles container decoded independently. Boxes with tile-aligned edges (all tile boxes of levels 1..3, border values at levels 4..5; as the library's as_geo_bbox reports them) must select exactly the named tiles at every level. Sources that are real container files of all five formats holding an irregular set with shared payloads x flags x boxes x zoom limits. A 21845-tile pyramid converted with and without flags / a box into pmtiles, versatiles and mbtiles. CLI: `versatiles convert` over option combinations and `versatiles serve --flip-y/--swap-xy` mapping vs the conversion's. \
 		 oracle: tile at c iff c selected (1e-6 tile don't-care band, border widens per level) and the source has T^-1(c), payload names T^-1(c); lookups, streams and advertised coverage agree. non-trivial = configurations with a flag or a box",
 	);
@@ -673,7 +673,7 @@ pub fn run(ctx: Arc<Ctx>) {
 					if zi > 0 && bxi % 4 != 0 && bxi < n_strided {
 						continue;
 					}
-					let borders: Vec<Option<u32>> = if b.is_some() { vec![None, Some(0), Some(1), Some(3)] } else { vec![None] };
+					let borders: Vec<Option<u32>> = if b.is_some() { vec![None, Some(0), Some(1), Some(3), Some(2147483649), Some(u32::MAX)] } else { vec![None] };
 					for border in borders {
 						if border.is_some() && (bxi + flags as usize) % 3 != 0 {
 							continue;
